@@ -5,8 +5,9 @@
   contract (modelled by `RawInput`, exercised by the correspondence only) — hence *partly partial*.
 -/
 import BEI.Model.Reader
+import BEI.Props.C16
 namespace BEI.Props.C15
-open BEI
+open BEI BEI.Props.C05
 
 /-- a reader at the start of a frame with no UI interaction -/
 def fresh (raw : RawInput) (dev : Device) : Reader := { raw := raw, consumed := {}, device := dev }
@@ -135,5 +136,45 @@ theorem one_gamepad_same (p : Pad) (raw : RawInput) (hone : raw.pads = [p]) (b x
       by_cases h0 : q = 0
       · subst h0; simp [hclamp, hq, Option.filter]
       · simp [h0, hclamp, hq, Option.filter]
+
+/-- **every reading, anywhere in the frame**: a binding whose input is not hidden by consumption, read with the UI flag
+    clear, reads exactly what the fresh reader of this frame reads — so the characterisations above (`key_active`,
+    `mbtn_active`, `motion_value`, `single_reads_only_g`, `any_button`, …) hold for every context at its turn, not only
+    for the first one; a hidden input reads inactive (`C05.hidden_reads_inactive`), a mouse input under the UI flag
+    too (`C16.masked_reader`) -/
+theorem unhidden_reads_physical (r : Reader) (j : Input) (h : hiddenBy r.consumed r.device j = false)
+    (hui : r.consumed.uiWantsMouse = false) : r.value j = (fresh r.raw r.device).value j := by
+  have hi : ∀ m : ModKeys, ({} : ModKeys).intersects m = false := by intro m; simp [ModKeys.intersects]
+  cases j with
+  | key k m =>
+    simp [hiddenBy] at h
+    simp [fresh, Reader.value, Reader.modKeysPressed, Reader.modsDown, h, hi]
+  | mbtn b m =>
+    simp [hiddenBy] at h
+    simp [fresh, Reader.value, Reader.modKeysPressed, Reader.modsDown, h, hi, hui]
+  | motion m =>
+    simp [hiddenBy] at h
+    have hc : (r.consumed.uiWantsMouse || !r.modKeysPressed m || r.consumed.motion)
+        = ((fresh r.raw r.device).consumed.uiWantsMouse || !(fresh r.raw r.device).modKeysPressed m
+            || (fresh r.raw r.device).consumed.motion) := by
+      simp [fresh, Reader.modKeysPressed, Reader.modsDown, hui, h.1, h.2, hi]
+    simp only [Reader.value]
+    rw [hc]
+    rfl
+  | wheel m =>
+    simp [hiddenBy] at h
+    have hc : (r.consumed.uiWantsMouse || !r.modKeysPressed m || r.consumed.wheel)
+        = ((fresh r.raw r.device).consumed.uiWantsMouse || !(fresh r.raw r.device).modKeysPressed m
+            || (fresh r.raw r.device).consumed.wheel) := by
+      simp [fresh, Reader.modKeysPressed, Reader.modsDown, hui, h.1, h.2, hi]
+    simp only [Reader.value]
+    rw [hc]
+    rfl
+  | padBtn b =>
+    simp [hiddenBy] at h
+    simp [fresh, Reader.value, Reader.findPad, h]
+  | padAxis x =>
+    simp [hiddenBy] at h
+    simp [fresh, Reader.value, Reader.findPad, h]
 
 end BEI.Props.C15
